@@ -32,8 +32,15 @@ package ios
 //vc:  ensures[C15] @guardStillArmed s.reloadActive
 //vc:  set accepted = accepted + 1
 //vc:  ensures[C09] accepted == old(accepted) + 1
+// the question "Proceed with reload? [confirm]" is answered in every case -
+// with or without the preceding "Save? [yes/no]" question - otherwise the next
+// command of the script is consumed as the answer
+//vc:ghost var reloadConfirmed bool
 //vc:func (*State).sendReloadCmd
 //vc:  requires[C11] !isCompareRun
+//vc:  init reloadConfirmed = false
+//vc:  assign after "s.Conn.SendCmd(" reloadConfirmed = true
+//vc:  ensures[C15] @reloadConfirmedInEveryCase reloadConfirmed
 //vc:  ensures[C15] @guardArmed s.reloadActive
 //vc:func (*State).cancelReload
 //vc:  requires[C11] !isCompareRun
